@@ -13,10 +13,12 @@ LEVEL_TEXT = ('A 40-line reference automaton written from the statement (terminu
               'chain relation x OXT x separator spelling, all sequences up to 3/4 tokens within a deviation bound) and '
               'over every 3-residue window of four real proteins, every ligand/ion template and whole structures; each '
               'stream is replayed through the real propka.run.single and the per-conformation groups, the average and '
-              'the parsed summary section are compared with the automaton output as multisets.')
+              'the parsed summary section are compared with the automaton output as multisets; docked cysteine pairs '
+              '(S-S along every axis direction, distances around the 2.5 A limit) under every titrate-only listing.')
 LEVEL_NOTE = ('Trusts the reference automaton (pkmc/checks/c01.py: census), the chemical class written next to each '
               'hand-made ligand template and the .pka parser. Ligand groups of the real structures (MTX, KNI ...) have '
-              'no chemistry-derived expectation and are not judged; nucleotides are not generated.')
+              'no chemistry-derived expectation and are not judged; nucleotides are pseudo-nucleotides (named ring N + methyl '
+              'phosphate) that reach every entry of the custom model-pKa table, not full DNA geometry.')
 TECHNIQUE = 'explicit enumeration of record streams; reference automaton stepped side by side with the real reader and group extraction (conformance checking)'
 ASSUMPTIONS = ['single-model, single-alt-loc streams (multi-conformation inputs belong to C08)',
                'hetero records are transparent for the chain-start rule']
@@ -461,6 +463,10 @@ def plan(tier, seed):
             others.append(dict(kind='layout', how='alt', layout=lay, partial=partial))
     for lay in ([(1, 'ASP'), (2, 'ASPnoCG')], [(1, 'ASPnoCG'), (2, 'ASP')], [(1, 'ASP'), (2, 'ASPnoCG'), (3, 'ASPs')]):
         others.append(dict(kind='layout', how='model', layout=lay))
+    # two cysteines docked SG-SG: bridged below 2.5 A whatever the direction of the S-S vector and whatever is listed
+    for d in ((2.03, 2.499, 2.6) if tier == 'quick' else (2.0, 2.03, 2.2, 2.4, 2.499, 2.501, 2.6, 3.0)):
+        for orient in ('dock', '+x', '-x', '+y', '-y', '+z', '-z', 'diag'):
+            others.append(dict(kind='bridge', d=d, orient=orient))
     allc = streams + windows
     size = 400
     shards = [allc[i:i + size] for i in range(0, len(allc), size)] + [[c] for c in others]
@@ -576,6 +582,28 @@ def run_case(case, ctx, acc):
         acc.case(nontrivial_key=jhash(case), outcome='whole:%s:%d' % (case['key'], len(exp)))
     elif k == 'cfg-table':
         cfg_table(case, acc)
+    elif k == 'bridge':
+        s = gen.pair('CYS', 'CYS', case['d'])
+        sg = [a for a in s.atoms if a.name == 'SG']
+        if case['orient'] != 'dock':
+            target = {'+x': [1, 0, 0], '-x': [-1, 0, 0], '+y': [0, 1, 0], '-y': [0, -1, 0], '+z': [0, 0, 1], '-z': [0, 0, -1],
+                      'diag': [1, 1, 1]}[case['orient']]
+            R = gen.rotmat([sg[1].x - sg[0].x, sg[1].y - sg[0].y, sg[1].z - sg[0].z], target)
+            for a in s.atoms:
+                c = (a.x, a.y, a.z)
+                a.x, a.y, a.z = (int(round(sum(R[i][j] * c[j] for j in range(3)))) for i in range(3))
+        s.translate(gen.seed_offset(ctx.seed))
+        keys = [(a.chain, a.resnum, a.icode) for a in sg]
+        other = [(a.chain, a.resnum, a.icode) for a in s.atoms if a.rec == 'ATOM  ' and (a.chain, a.resnum, a.icode) not in keys][:1]
+        arg = lambda ks: ','.join('%s:%d%s' % (c, n, i.strip()) for c, n, i in ks)   # noqa: E731
+        for sel in (None, keys[:1], keys[1:], keys, other, other + keys[:1]):
+            if sel is None:
+                compare(dict(case, titrate_only=None), s.items, (), acc)
+            else:
+                compare(dict(case, titrate_only=arg(sel)), s.items, ('-i', arg(sel)), acc, titrate_only=sel)
+            acc.n += 1
+        dist = math.sqrt(sum((getattr(sg[0], c) - getattr(sg[1], c)) ** 2 for c in 'xyz')) / 1000.0
+        acc.case(nontrivial_key=jhash(case), outcome='bridge:%s' % ('bridged' if dist < 2.5 else 'free'))
     elif k == 'stripped':
         items = []
         for i in range(3):
